@@ -7,13 +7,14 @@ CHECK = {
                      "ClusterVerif/Model/C03.lean", "ClusterVerif/Spec/C03.lean", "ClusterVerif/Lemmas/C04.lean",
                      "ClusterVerif/Model/C04Faults.lean", "ClusterVerif/Spec/C04Conc.lean", "ClusterVerif/Lemmas/C04Faults.lean",
                      "ClusterVerif/Model/C04Rpc.lean", "ClusterVerif/Lemmas/C04Rpc.lean",
-                     "ClusterVerif/Model/C04Sem.lean", "ClusterVerif/Gen/C04Sem.lean", "ClusterVerif/Lemmas/C04Sem.lean"],
+                     "ClusterVerif/Model/C04Sem.lean", "ClusterVerif/Gen/C04Sem.lean", "ClusterVerif/Lemmas/C04Sem.lean", "ClusterVerif/Lemmas/C04Typed.lean"],
     "rule": "histories of 4-25 Pin/PinPath/PinUpdate/Unpin/UnpinPath/rpc-pin calls over 12 CIDs (6 data, a sharded group), options drawn or derived "
             "from the stored pin with one field changed/added/removed, 5 default-factor settings, follower on/off, preloaded pinsets; every call is one case "
             "with its explicit pre-state; a trailing !k makes the k-th consensus call of the API call fail; paths to meta / cluster-DAG / shard pins and unresolved paths; "
             "cluster-DAG blocks complete / listing an absent shard / empty / unreachable; suite conc: two calls on one cid interleaved between read and consensus call (write order x stale/fresh read); "
             "round 8: ~30% of the calls enter through the real ClusterRPCAPI (in-process gorpc client of newRPCServer): rpc.pin (plain PinWithOpts pins as REST/proxy/ctl send them, and the adders' typed pins), "
             "rpc.unpin with a decorated pin object, rpc.pinpath / rpc.unpinpath with options, rpc.pinget; 8 default-factor settings incl. max above the peer count; "
+            "round 8c: ~2% of the calls are pin objects without a cid (cid.Undef; plain or typed with preset allocations, direct and through the RPC Pin); arms of the adders' pins split by new/existing, type, preset allocations; "
             "non-trivial = every case (each call is constrained by the generic clauses); distinct by case line",
     "trusted_base": ["FakeConsensus = real dsstate over an in-memory datastore applying LogPin/LogUnpin directly",
                      "table-driven IPFS connector for Resolve/BlockGet; metrics.Store monitor; verif_export.go (VerifNewCluster, VerifPin)",
@@ -39,8 +40,14 @@ META = {
             "what is assigned to it, every guard with its conjuncts and every early return in source order, the case order of Unpin's switch; logging/tracing/message text dropped, local names canonical) and RUN by the Lean model (Sem.stepSem): "
             "sem_is_model proves for ALL inputs that the regenerated sequences compute exactly the hand-written model plus pin()'s cid.Undef guard (sem_undef_cid_refused), sem_step_holds that every clause holds for what they compute; "
             "the driver's model side of every fault-free call is this interpretation, so a dropped / reordered guard or another pin constructor changes the model. Refuted with witnesses: seeded C04g's PinPath (PinCid + options: a direct request stored recursive), "
-            "setupPin without the recursive->direct guard, Unpin without the follower guard; proved harmless: C04g's edit with the depth set from the mode.",
+            "setupPin without the recursive->direct guard, Unpin without the follower guard; proved harmless: C04g's edit with the depth set from the mode."
+            " Round 8c: the adders' typed pins through the RPC Pin are held to the new clause rpc_pin_stored_as_sent (a pin object new at its cid is stored with the type, reference and depth it was sent with, and with its preset "
+            "allocations unless it carried none or asks for 'everywhere'): proved for the model for ALL inputs (step_holds now includes it; Prop reading rpc_pin_stored_as_sent), the two wrong RPC layers of the first pass refuted against the SPEC "
+            "(rpc_pin_via_public_pin_fails, rpc_pin_clearing_allocations_fails); pin objects WITHOUT a cid (cid.Undef) are sent by the harness and judged by the clause pin_without_cid_refused (sem_step_holds_all: every clause for ALL requests, "
+            "defined cid or not); unpin_done_retry_is_noop (a completed Unpin re-run is refused and changes nothing) and mixed_factor_with_everywhere_default_refused (min>0 with max left to a default of -1 is refused). "
+            "The source-text snapshots of the seven semantically tied functions (Pin, PinPath, UnpinPath, pin, setupPin, Unpin, PinUpdate) were removed: a harmless rewrite of them is now silent; text snapshots remain for "
+            "setupReplicationFactor, unpinClusterDag, cidsFromMetaPin, checkPinType, PinOptions.Equals, Pin.Equals, PinWithOpts, IsRemotePin, ExpiredAt.",
     "note": "Trusted: Lean kernel, hand-written model/spec, harness fakes (consensus = dsstate applying ops directly, table IPFS connector), verif_export.go. "
             "Allocation validity is delegated to C03.",
-    "technique": "Lean 4 theorem over a step model + semantic go/ast translation of the RPC layer and of the statement sequences (constructors, guards, early returns) of cluster.go's pin/unpin/update functions, both interpreted by the model + regenerated source text of the anchored functions checked against the transcribed snapshot (rfl) + differential correspondence per API call with explicit pre-state",
+    "technique": "Lean 4 theorem over a step model + semantic go/ast translation of the RPC layer and of the statement sequences (constructors, guards, early returns) of cluster.go's pin/unpin/update functions, both interpreted by the model + regenerated source text of the anchored functions that have no semantic tie checked against the transcribed snapshot (rfl) + differential correspondence per API call with explicit pre-state",
 }
